@@ -1,29 +1,19 @@
 import Percival.Driver.Loop
-import Percival.Model.Getopt
-/-! `pmodel getopt`: line protocol for `harness/h_getopt.c` (driver code, not part of any theorem).
+import Percival.Model.GetoptStep
+/-! `pmodel getopt`: line protocol for `harness/h_getopt.c`.  Thin by construction: `parse`,
+`Model.GetoptStep.stepOp`, `render`.
 
 `parse <table> <k> [<argv0> <arg>…]` — set `optreset = 1`, run the user loop over the given `argv`
 (hex words, `-` = empty word; no words at all = `argc == 0`), stop after `k` reports if `k > 0`.
 Output: `<reports> end=<optind>` (or `… stop` when abandoned) ` | ` state after every report and at the end.
 L1 (before the bar) is printed from `Spec.Getopt.parseArgv`; L2 (after it) from the model's states. -/
 namespace Percival.Driver.Getopt
-open Percival.Model.Getopt Percival.Spec.Getopt Percival.Driver
+open Percival.Model.Getopt Percival.Spec.Getopt Percival.Driver Percival.Model.GetoptStep
 
-def b (s : String) : Str := s.toUTF8.toList
-
-/-- The switches of `harness/h_getopt.c`, line by line (index 0 = the `GETOPT_SWITCH` line). -/
-def tables : List (List Line) := [
-  -- t0: short+long, with/without arguments, with GETOPT_MISSING_ARG
-  [.blank, .opt (b "-a") false, .opt (b "-b") true, .opt (b "--foo") false, .opt (b "--bar") true, .missing],
-  -- t1: same options in another order, no GETOPT_MISSING_ARG
-  [.blank, .opt (b "--bar") true, .opt (b "-a") false, .blank, .opt (b "--foo") false, .opt (b "-b") true],
-  -- t2: overlapping prefixes, single letters that are prefixes of packed groups, handler in the middle
-  [.blank, .opt (b "--foo") false, .opt (b "--foobar") true, .opt (b "-f") false, .missing,
-   .opt (b "-o") true, .opt (b "--f") true, .opt (b "-b") false, .opt (b "--fo") false],
-  -- t3: '=' as a single-character option, same letter short and long, no handler
-  [.blank, .opt (b "-=") false, .opt (b "-x") true, .opt (b "--x") true, .blank, .opt (b "-y") false,
-   .opt (b "--y") false]
-]
+def parse : List String → Option Op
+  | "parse" :: t :: k :: words => do pure (.parse (← t.toNat?) (← k.toNat?) (← words.mapM bytesOfHex))
+  | "mparse" :: t :: words => do pure (.mparse (← t.toNat?) (← words.mapM bytesOfHex))
+  | _ => none
 
 def hexs (s : Str) : String := hexOfBytes s
 
@@ -55,44 +45,22 @@ def showSt (s : St) (withArg : Bool) : String :=
 def showFail : Fail → String
   | .oob => "fail:oob" | .abort => "fail:abort" | .fuel => "fail:fuel"
 
+def render : Out → String
+  | .badTable => "bad-table"
+  | .fail f => showFail f
+  | .parsed spec true _ states _ =>
+      s!"{" ".intercalate (spec.map showReport ++ ["stop"])} | {";".intercalate (states.map fun st => showSt st true)}"
+  | .parsed spec false endv states final =>
+      let l1 := " ".intercalate (spec.map showReport ++ [s!"end={endv}"])
+      let l2 := ";".intercalate (states.map (fun st => showSt st true) ++
+                  (match final with | some sf => [showSt sf false] | none => []))
+      s!"{l1} | {l2}"
+  | .mparsed reports endv => " ".intercalate (reports.map showReport ++ [s!"end={endv}"])
+
 def step (s : St) (toks : List String) : St × String :=
-  match toks with
-  | "parse" :: t :: k :: words =>
-    match t.toNat?, k.toNat?, words.mapM bytesOfHex with
-    | some t, some k, some argv =>
-      match tables[t]? with
-      | none => (s, "bad-table")
-      | some lines =>
-        let T := tableOf lines
-        match run lines argv s with
-        | .error f => (s, showFail f)
-        | .ok (evs, sf) =>
-          let spec := Percival.Spec.Getopt.parseArgv T argv
-          if k > 0 ∧ k ≤ evs.length then
-            -- abandoned after k reports
-            let evs' := evs.take k
-            let sk := match evs'.getLast? with | some (_, st) => st | none => sf
-            let l1 := " ".intercalate ((spec.1.take k).map showReport ++ ["stop"])
-            let l2 := ";".intercalate (evs'.map fun (_, st) => showSt st true)
-            (sk, s!"{l1} | {l2}")
-          else
-            let l1 := " ".intercalate (spec.1.map showReport ++ [s!"end={spec.2}"])
-            let l2 := ";".intercalate (evs.map (fun (_, st) => showSt st true) ++ [showSt sf false])
-            (sf, s!"{l1} | {l2}")
-    | _, _, _ => (s, "bad-op")
-  -- debugging aid: what the concrete model itself reports (not used by the check)
-  | "mparse" :: t :: words =>
-    match t.toNat?, words.mapM bytesOfHex with
-    | some t, some argv =>
-      match tables[t]? with
-      | none => (s, "bad-table")
-      | some lines =>
-        match run lines argv s with
-        | .error f => (s, showFail f)
-        | .ok (evs, sf) =>
-          (sf, " ".intercalate (evs.map (fun (r, _) => showReport r) ++ [s!"end={sf.optind}"]))
-    | _, _ => (s, "bad-op")
-  | _ => (s, "bad-op")
+  match parse toks with
+  | some op => let r := stepOp s op; (r.1, render r.2)
+  | none => (s, "bad-op")
 
 def main (_args : List String) : IO UInt32 := loop St.fresh step
 
